@@ -12,6 +12,10 @@ RULE = ("seeded generator (gen_vmdk.gen_extent): kind in kdmv / kdmv_footer / kd
         "headers) / cowd / sesparse / flat, capacity (1 sector .. ≥ 2^32 sectors, not a multiple of the grain size or of 16 "
         "sectors), grain size, grain-table size (1, 7, 96, 512, 4096), grain states, physical order, table placement incl. beyond "
         "sector 2^32, > 128 grain tables; requests at grain / table / extent edges ±1 / ±sector, spans, tail, full, as one history. "
+        "Merged runs: every 11th case has a grain size of at least two stream buffers and a tight physical order in which logically "
+        "consecutive grains lie exactly one grain size apart (stream-optimised: records on a grain-size raster, or packed records "
+        "that fill a whole grain size; other kinds: sequential / identity placement), with requests that begin inside the first "
+        "grain of such a run and end inside a later one (gen_vmdk.run_queries). "
         "Non-trivial = model WF, ≥ 2 grain states present, a request crossing a grain boundary; distinct recipe hash.")
 ASSUMPTIONS = ["zlib inflate is a parameter of the theorems; the driver instantiates it with Hv/Prim/Inflate.lean (checked against zlib by this correspondence)",
                "dissect.util AlignedStream as transcribed", "lru_cache transparency (file immutable)", "cstruct parsing (layouts re-probed)"]
@@ -24,6 +28,9 @@ def generate(seed, tier):
     cases = []
     kinds = ["kdmv", "kdmv_footer", "kdmv_stream", "cowd", "sesparse", "flat"]
     for i in range(n):
+        if i % 11 == 5:
+            cases.append(merged_run_case(rng, tier, f"r{i}", 9 if tier == "quick" else 14))
+            continue
         r = gen_vmdk.gen_extent(rng, tier, kind=kinds[(i // 3 + i) % len(kinds)] if i % 3 else None)
         if r["kind"] == "flat":
             r["extra"] = 0          # a bare flat handle takes its size from the file
@@ -35,11 +42,37 @@ def generate(seed, tier):
     return cases
 
 
+def merged_run_case(rng, tier, cid, nq):
+    """an extent whose grains are at least two stream buffers long and physically consecutive in logical order, so that requests
+    reach get_runs / read_sectors in the middle of a grain and leave it in the middle of a later grain of the same run"""
+    align = rng.choice([512, 512, 1536, 4096, 8192, 8192, 8192, 8192])
+    gs = rng.choice([g for g in (8, 16, 32, 64, 128, 128, 128) if g * 512 >= 2 * align])
+    kind = rng.choice(["kdmv_stream"] * 5 + ["kdmv", "kdmv_footer", "cowd", "sesparse"])
+    order = rng.choice(["stride", "packed", "packed"]) if kind == "kdmv_stream" else rng.choice(["seq", "seq", "ident"])
+    for _ in range(8):                              # few grains / a thin allocation map may leave no two neighbours allocated
+        r = gen_vmdk.gen_extent(rng, tier, kind=kind, huge=False, gs=gs, order=order)
+        if gen_vmdk.merged_chains(r):
+            break
+    qs = gen_vmdk.gen_queries(rng, r["cap"] * 512, gen_vmdk.extent_points(r), nq) + gen_vmdk.hot_queries(r)
+    # the same sector ranges through read_sectors directly (no stream buffer in between: any grain size is entered mid-grain)
+    direct = [["S", o // 512, -(-(o % 512 + l) // 512)] for o, l in gen_vmdk.run_queries(r)[:3] if l > 0]
+    return {"id": cid, "recipe": r, "align": align, "queries": [["o", o, l] for o, l in qs] + direct}
+
+
 def group_by_env(cases):
     by = {}
     for c in cases:
         by.setdefault(c.get("align", 8192), []).append(c)
     return [({"DISSECT_STREAM_BUFFER_SIZE": a}, cs) for a, cs in sorted(by.items())]
+
+
+def _mid_to_mid(q, align, gsz, size, chain):
+    """does the block of whole stream buffers in the middle of request q reach the extent inside a grain of the merged run
+    `chain` and end inside a later grain of it (neither on a grain boundary)?"""
+    off, ln = q[1], min(q[2], max(0, size - q[1]))
+    ms = -(-off // align) * align
+    me = ms + (off + ln - ms) // align * align
+    return me > ms and ms % gsz and me % gsz and chain[0] <= ms // gsz < me // gsz <= chain[1]
 
 
 def build(case):
@@ -54,8 +87,10 @@ def build(case):
         states = {("a" if not isinstance(v, str) else v) for v in r["grains"].values()}
         if len(alloc) < ng:
             states.add("u")
-    crosses = any(q[2] > 0 and q[1] < t.size and q[1] // gsz != (min(q[1] + q[2], t.size) - 1) // gsz for q in case["queries"])
+    crosses = any(q[0] == "o" and q[2] > 0 and q[1] < t.size and q[1] // gsz != (min(q[1] + q[2], t.size) - 1) // gsz for q in case["queries"])
     branches = [r["kind"]] + sorted(str(s) for s in states) + sorted(k for k, v in r.get("info", {}).items() if v is True)[:8]
+    if r["kind"] != "flat" and any(_mid_to_mid(q, case.get("align", 8192), gsz, t.size, ch) for ch in gen_vmdk.merged_chains(r) for q in case["queries"] if q[0] == "o"):
+        branches.append("merged-run-mid-to-mid" + ("-compressed" if r["kind"] == "kdmv_stream" else ""))
     return Built({"a": t.image}, truth, {"branches": branches, "crosses": crosses, "in_scope": True, "states": len(states)})
 
 
@@ -90,11 +125,14 @@ def search(seed, broken, budget):
     rng = random.Random(f"C02/search/{seed}")
     cases = []
     for i in range(min(budget, 1200)):
+        if i % 5 == 4:
+            cases.append(merged_run_case(rng, "quick", f"s{i}", 10))
+            continue
         r = gen_vmdk.gen_extent(rng, "quick")
         if r["kind"] == "flat":
             r["extra"] = 0
         size = r["cap"] * 512
-        qs = [["o", o, l] for o, l in gen_vmdk.gen_queries(rng, size, gen_vmdk.extent_points(r), 10)]
+        qs = [["o", o, l] for o, l in gen_vmdk.gen_queries(rng, size, gen_vmdk.extent_points(r), 10) + gen_vmdk.hot_queries(r)]
         cases.append({"id": f"s{i}", "recipe": r, "align": rng.choice([8192, 512, 65536]), "queries": qs})
     return cases
 
